@@ -64,6 +64,7 @@ def run(ctx):
                 LV = st.targets[0].id
             if isinstance(v, ast.IfExp) and 'isinstance(obj, dict)' in norm(v.test):
                 DV = st.targets[0].id
+    check_provenance(ctx, rr, SV, LV, DV)
     if ok:
         e = ret_stmts[0].value.elts
         names = [norm(x) for x in e]
@@ -141,6 +142,49 @@ def run(ctx):
     # ---------------------------------------------------------------- R4 frame balance
     check_balance(ctx, RS)
     check_entry_beliefs(ctx, RS)
+
+REWRAP = ('OrderedDict', 'collections.OrderedDict', 'dict')
+MUTATORS = ('pop', 'popitem', 'clear', 'update', 'setdefault', 'move_to_end', '__setitem__', '__delitem__', 'append', 'extend', 'remove', 'insert', 'sort', 'reverse')
+
+
+def check_provenance(ctx, rr, SV, LV, DV):
+    """R2 who-may-write frame on the three payload variables of the reduce value: what is sent is what was taken.
+    The state variable is defined by the __getstate__ call and may only be re-wrapped by a content-preserving mapping
+    constructor applied to itself; nothing in remote_reduce mutates it. listitems/dictitems have a single definition."""
+    pm = parent_map(rr.node)
+
+    def stmt_of(n):
+        while n in pm and not isinstance(n, ast.stmt):
+            n = pm[n]
+        return n
+    n_stores = 0
+    for var, role in ((SV, 'state'), (LV, 'listitems'), (DV, 'dictitems')):
+        if var is None:
+            continue
+        for n in walk_local(rr.node):
+            if isinstance(n, ast.Name) and n.id == var and isinstance(n.ctx, (ast.Store, ast.Del)):
+                st = stmt_of(n)
+                n_stores += 1
+                v = st.value if isinstance(st, ast.Assign) and len(st.targets) == 1 and st.targets[0] is n else None
+                ok = False
+                if v is not None:
+                    if role == 'state':
+                        ok = (isinstance(v, ast.Call) and last_attr(v) == '__getstate__') or \
+                             (isinstance(v, ast.Call) and dotted(v.func) in REWRAP and len(v.args) == 1 and not v.keywords and is_name(v.args[0], var))
+                    else:
+                        ok = isinstance(v, ast.IfExp)
+                ctx.check('R2', f'the {role} of the reduce value is only defined by what was taken from the object', ok, 'RemotePickler36.remote_reduce',
+                          f'{role}-replaced:{norm(st)[:60]}', f'`{short(st)}` replaces the {role} taken from the object: what is restored on the other side is not what __getstate__(remote=...) returned',
+                          where=loc(rr, st))
+            if role == 'state' and isinstance(n, ast.Subscript) and is_name(n.value, var) and isinstance(n.ctx, (ast.Store, ast.Del)):
+                st = stmt_of(n)
+                ctx.check('R2', 'remote_reduce does not edit the state it took', False, 'RemotePickler36.remote_reduce', f'state-mutated:{norm(st)[:60]}',
+                          f'`{short(st)}` edits the state taken from the object', where=loc(rr, st))
+            if role == 'state' and isinstance(n, ast.Call) and last_attr(n) in MUTATORS and receiver(n) == var:
+                st = stmt_of(n)
+                ctx.check('R2', 'remote_reduce does not edit the state it took', False, 'RemotePickler36.remote_reduce', f'state-mutated:{norm(n)[:60]}',
+                          f'`{short(st)}` edits the state taken from the object', where=loc(rr, st))
+    ctx.floor('stores to the payload variables of the reduce value', n_stores, 4)
 
 
 def check_balance(ctx, RS):
